@@ -81,6 +81,13 @@ structure VarCfg where
   model : Str
 deriving DecidableEq, Repr, Inhabited
 
+/-- `v2.DslExpressionMatcher`: is the expression text empty, its oracle identifier, does it compile -/
+structure DslCfg where
+  empty : Bool
+  id : Nat
+  ok : Bool
+deriving DecidableEq, Repr, Inhabited
+
 /-- `v2.RouterMatch`; `regex = none` ⇔ `Regex == ""` -/
 structure MatchCfg where
   prefix_ : Str
@@ -88,6 +95,7 @@ structure MatchCfg where
   regex : Option Rx
   variables : List VarCfg
   headers : List HeaderCfg
+  dsl : List DslCfg := []
 deriving Repr, Inhabited
 
 structure VHostCfg where
@@ -110,6 +118,7 @@ inductive Rule
   | path (hm : HttpHeaderMatcher) (p : Str)
   | regex (hm : HttpHeaderMatcher) (id : RegexId)
   | variable (items : List VarItem)
+  | dsl (ids : List Nat)
   | rpc (fastmatch : Str) (hm : List KeyValueData)
 deriving Repr, Inhabited
 
@@ -153,7 +162,8 @@ def createRpc (hs : List HeaderCfg) : Rule :=
     | _ => []
   .rpc fast (createCommon hs)
 
-/-- `NewRouteBase`: the rule kind is decided by the first non-empty of Prefix, Path, Regex, Variables, (Headers) -/
+/-- `NewRouteBase`: the rule kind is decided by the first non-empty of Prefix, Path, Regex, Variables,
+DslExpressions, (Headers) -/
 def mkRule (m : MatchCfg) : Except Err Rule :=
   if m.prefix_ ≠ [] then .ok (.prefix_ (createHttp m.headers ⟨[], []⟩) m.prefix_)
   else if m.path ≠ [] then .ok (.path (createHttp m.headers ⟨[], []⟩) m.path)
@@ -164,6 +174,9 @@ def mkRule (m : MatchCfg) : Except Err Rule :=
         match m.variables.mapM parseVarItem with
         | some items => .ok (.variable items)
         | none => .error .badVariable
+      else if m.dsl ≠ [] then
+        -- parseConfigToDslExpression: empty and non-compiling expressions are skipped
+        .ok (.dsl (m.dsl.filterMap (fun d => if !d.empty && d.ok then some d.id else none)))
       else .ok (createRpc m.headers)
 
 /-- `NewVirtualHostImpl`: the rules in configuration order, or the first error -/
@@ -291,6 +304,7 @@ def matchRule (rx : RxOracle) (req : Req) : Rule → Bool
   | .path hm p => pathMatch rx req.var req.hdr hm p
   | .regex hm id => regexMatch rx req.var req.hdr hm id
   | .variable items => variableMatch rx req.var items
+  | .dsl ids => ids.all (fun i => req.dsl i == some true)   -- DslExpressionRouteRuleImpl.Match (hand-modelled)
   | .rpc fast hm => rpcMatch rx req.hdr fast hm
 
 /-- `route.Match(ctx, headers)` on a rule paired with its position: the pair itself or nil -/
@@ -441,6 +455,9 @@ def ruleHolds (rx : RxOracle) (req : Req) (m : MatchCfg) : Bool :=
       (match reqPath req with | some p => rx r.id p | none => false) && httpHeadersHold rx req m.headers
     | none =>
       if m.variables ≠ [] then varsHold rx req m.variables true
+      else if m.dsl ≠ [] then
+        -- DSL rule: every expression that is non-empty and compiles evaluates to true
+        m.dsl.all (fun d => d.empty || !d.ok || req.dsl d.id == some true)
       else
         -- RPC rule; a lone `service` matcher keeps the legacy "simple sofa rule" meaning
         match m.headers with
